@@ -534,6 +534,133 @@ example : (pipeline 40 (fun _ => some [("p", 2)])
 end Pipeline
 
 
+
+/-! ## … and across the hierarchy: every module of an F1 design through the pass list and the exporter, children first -/
+section Hierarchy
+open Hdl21.Pkg Hdl21.RoundTrip Hdl21.ExportWF Hdl21.ModulePipe
+
+/-- the module-local half of `ModOK` -/
+def ModOK₀ (h : HModule) : Prop :=
+  ((h.signals ++ h.ports).map (·.name)).Nodup ∧
+  (∀ s ∈ h.signals ++ h.ports, 0 < s.width) ∧
+  (h.ports.all fun s => (s.dir.bind (lookupS · exportDirMap)).isSome) = true ∧
+  (h.instances.map (·.name)).Nodup ∧
+  (∀ i ∈ h.instances, (i.conns.map (·.1)).Nodup)
+
+/-- every primitive of the regenerated table has its ports under distinct names -/
+theorem primitive_ports_distinct : primitivePorts.all (fun r => decide ((r.2.2.map (·.1)).Nodup)) = true := by decide +kernel
+
+theorem targetPorts_exts_only (pkg : Package) (earlier : List PModule) (r : PRef) :
+    targetPorts pkg earlier r = targetPorts ⟨[], pkg.exts⟩ earlier r := by
+  cases r <;> rfl
+
+theorem map_fst_lookup (ports : List (String × String)) (sigs : List (String × Nat)) :
+    (ports.map (fun (x : String × String) => (x.1, (lookup x.1 sigs).getD 0))).map (·.1) = ports.map (·.1) := by
+  rw [List.map_map]; rfl
+
+/-- what an instance can point to has its ports under distinct names, given that the modules exported so far and the declared
+    external modules do -/
+theorem ctx_ports_distinct (exts : List PExt) (acc : List PModule)
+    (hacc : ∀ m ∈ acc, (m.ports.map (·.1)).Nodup) (hext : ∀ e ∈ exts, (e.ports.map (·.1)).Nodup) :
+    ∀ r ports, targetPorts ⟨[], exts⟩ acc r = some ports → (ports.map (·.1)).Nodup := by
+  intro r ports h
+  cases r with
+  | loc name =>
+    simp only [targetPorts] at h
+    cases hf : acc.find? (fun m => m.name == name) with
+    | none => simp [hf] at h
+    | some m =>
+      simp only [hf, Option.map_some] at h
+      injection h with h; subst h
+      have hm := List.mem_of_find?_eq_some hf
+      have := hacc m hm
+      simpa [List.map_map, Function.comp_def] using this
+  | ext d n =>
+    simp only [targetPorts] at h
+    cases hf : exts.find? (fun e => e.domain == d && e.name == n) with
+    | some e =>
+      simp only [hf] at h
+      injection h with h; subst h
+      have := hext e (List.mem_of_find?_eq_some hf)
+      simpa [List.map_map, Function.comp_def] using this
+    | none =>
+      simp only [hf] at h
+      cases hp : primitivePorts.find? (fun r => r.1 == d && r.2.1 == n) with
+      | none => simp [hp] at h
+      | some r =>
+        simp only [hp, Option.map_some] at h
+        injection h with h; subst h
+        have := List.all_eq_true.mp primitive_ports_distinct r (List.mem_of_find?_eq_some hp)
+        simpa using this
+
+theorem pipeline_ports (fuel : Nat) (ctx : PRef → Option (List (String × Nat))) (h : HModule) (p : PModule)
+    (hp : pipeline fuel ctx h = .ok p) : p.ports.map (·.1) = h.ports.map (·.name) := by
+  unfold pipeline at hp
+  cases he : elabModule fuel ctx h with
+  | error x => simp [he] at hp
+  | ok e =>
+    simp only [he] at hp
+    obtain ⟨_, _, hs, _, _⟩ := elabModule_inv he
+    obtain ⟨_, _, hport, _⟩ := sliceResolver_inv hs
+    unfold RoundTrip.exportModule at hp
+    cases h1 : exportPorts e.ports with
+    | error x => simp [h1] at hp
+    | ok q =>
+      cases h2 : exportInsts e.instances with
+      | error x => simp [h1, h2] at hp
+      | ok ps =>
+        simp only [h1, h2] at hp
+        injection hp with hp; subst hp
+        rw [← hport]; exact exportPorts_names _ _ h1
+
+/-- **C06 for a whole F1 design.** Its modules — each with a namespace that is a namespace (`ModOK₀`), children first — go through
+    the composed pass list and the exporter one after the other, every instance judged against what the package holds at that
+    point (modules exported earlier, declared external modules with distinct port names, the primitive table).  If that returns,
+    the package has **no module-level defect anywhere** (`problemsFrom … = []`: unique signal / port / instance names, ports on
+    declared signals, no zero-width signal, every instance of something exported before it, declared or primitive, each of its
+    ports connected exactly once to a target over declared signals, in range, as wide as the port).  With
+    `exported_names_unique` (module names) and `declarations_consistent` (external modules) that is all of `WFpkg`. -/
+theorem design_pipeline_wf (fuel : Nat) (exts : List PExt) (hext : ∀ e ∈ exts, (e.ports.map (·.1)).Nodup) :
+    ∀ (hs : List HModule) (acc mods : List PModule), (∀ h ∈ hs, ModOK₀ h) → (∀ m ∈ acc, (m.ports.map (·.1)).Nodup) →
+      pipelineDesign fuel exts hs acc = .ok mods →
+      ∃ new, mods = acc ++ new ∧ ∀ (others : List PModule), problemsFrom ⟨others, exts⟩ acc new = []
+  | [], acc, mods, _, _, h => by
+    unfold pipelineDesign at h; injection h with h; subst h
+    exact ⟨[], by simp, fun _ => rfl⟩
+  | h :: rest, acc, mods, hm, hacc, hp => by
+    unfold pipelineDesign at hp
+    cases h1 : pipeline fuel (targetPorts ⟨[], exts⟩ acc) h with
+    | error x => simp [h1] at hp
+    | ok p =>
+      simp only [h1] at hp
+      obtain ⟨m1, m2, m3, m4, m5⟩ := hm h (List.mem_cons_self ..)
+      have hmod : ModOK (targetPorts ⟨[], exts⟩ acc) h := ⟨m1, m2, m3, m4, m5, ctx_ports_distinct exts acc hacc hext⟩
+      have hwf := module_pipeline_wf fuel _ h p hmod h1
+      have hpn : (p.ports.map (·.1)).Nodup := by
+        rw [pipeline_ports fuel _ h p h1]
+        rw [List.map_append] at m1
+        exact (List.nodup_append.mp m1).2.1
+      obtain ⟨new, hnew, hrest⟩ := design_pipeline_wf fuel exts hext rest (acc ++ [p]) mods
+        (fun x hx => hm x (List.mem_cons_of_mem _ hx))
+        (fun m hmem => by
+          rcases List.mem_append.mp hmem with hm' | hm'
+          · exact hacc m hm'
+          · simp at hm'; subst hm'; exact hpn) hp
+      refine ⟨p :: new, by rw [hnew]; simp, ?_⟩
+      intro others
+      unfold problemsFrom
+      rw [hwf ⟨others, exts⟩ acc (fun r => targetPorts_exts_only ⟨others, exts⟩ acc r), hrest others]
+      rfl
+
+/-- non-vacuity: a child with a two-bit port under a parent that wires it to a reversed slice of a (one-part) concatenation of a bus -/
+example :
+    let child : HModule := ⟨"Child", [], [⟨"d", 2, some "INPUT"⟩], [⟨"r", .ext "vlsir.primitives" "resistor", [], [("p", .slice (.sig "d" 2) (.int 0)), ("n", .slice (.sig "d" 2) (.int 1))]⟩]⟩
+    let top : HModule := ⟨"Top", [⟨"bus", 4, none⟩], [], [⟨"c", .loc "Child", [], [("d", .slice (.concat [.sig "bus" 4]) (.range (some 3) (some 1) (some (-1))))]⟩]⟩
+    (match pipelineDesign 40 [] [child, top] [] with
+     | .ok mods => some (mods.map (·.name), problemsFrom ⟨mods, []⟩ [] mods)
+     | .error _ => none) = some (["Child", "Top"], []) := by decide +kernel
+end Hierarchy
+
 /-! ## external-module declarations -/
 section ExtDecls
 open Hdl21.ExtDecl
